@@ -303,4 +303,7 @@ pub fn run(rc: &mut RunCtx) {
     rc.require_label("random_schedules", "capacity_below_16", 50_000);
     rc.require_label("eof_pauses", "has_pause", 300_000);
     rc.require_label("eof_pauses", "none_then_more_items", 50_000);
+    if !rc.quick() {
+        rc.run_fuzz(Some(STAGES[1]), 350);
+    }
 }
